@@ -3,33 +3,716 @@ import MsPack.Huff
 import MsPack.Generated.Tables
 import MsPack.Generated.Consts
 /-
-lzxd.c — STUB.  The interface the containers (CAB, CHM, OAB) use; `implemented = false` makes
-them answer `unsupported` until the model is written.
+lzxd.c (+ lzx.h, and the MSB-first / 16-bit-word instance of readbits.h and readhuff.h).
+
+The model follows the C statement by statement, quirks included:
+
+* Bit buffer: the C keeps `bit_buffer`/`bits_left`; the model keeps the list of those bits, next
+  bit first.  `READ_BYTES` takes two bytes `b0 b1` (each through `READ_IF_NEEDED`) and injects the
+  16 bits of `(b1 << 8) | b0`, most significant first.  `ENSURE_BITS(n)` injects words while fewer
+  than `n` bits are buffered.  `read_input` asks the source for `inbuf_size` bytes, fakes two zero
+  bytes at the first end of input and fails (MSPACK_ERR_READ) at the second.
+  (This version of lzxd.c never un-reads bytes and never uses READ_MANY_BITS.)
+* `lzx->length`: the CAB feeder calls `lzxd_set_output_length` from inside its read callback; the
+  model applies `S.lzxLength` after every `sys->read`, so every later read of `lzx->length` sees it
+  and every earlier one does not (the frame size is computed before the block loop refills; since
+  /repo commit 952a903 an empty bit buffer + unknown length triggers a refill first).
+* C locals (`window_posn`, `R0..R2`, `i_ptr`, `i_end`, `bit_buffer`, `bits_left`) live in the state
+  record.  The C stores them back only on a successful return; after an error the record holds the
+  values of the locals instead of the stale struct fields.  This is not observable: `lzx->error` is
+  sticky and every entry point that looks at those fields checks it first.
+* Unsigned/int 32-bit arithmetic is written out (`% 2^32`, `toS32`) where the C can wrap; `offset`,
+  `length` (`off_t`) are unbounded naturals.
+* Every array access is checked; an index outside the C object is `Fault.oob`.
+* Loops are structural or run on a `fuel` argument (exhausted = `Fault.hang`).
+* Memory the C does not initialise holds the allocator's `fill` byte: the window, `e8_buf`, the
+  `*_len` arrays beyond what `lzxd_reset_state` clears, `block_length`.
 -/
 namespace MsPack.Lzx
-open MsPack
+open MsPack MsPack.Generated
 
-def implemented : Bool := false
+def implemented : Bool := true
 
+inductive Halt
+  | sys (e : Err)       -- `return lzx->error = e` (the model has set `error` already)
+  | fault (f : Fault)
+  deriving Repr, DecidableEq
+
+/-- `struct lzxd_stream` (minus `sys/input/output`, with the decode tables as canonical codes) -/
 structure St (σ : Type) where
-  src : σ
+  src            : σ
+  offset         : Nat
+  length         : Nat
+  window         : Array UInt8
+  windowSize     : Nat
+  refDataSize    : Nat
+  numOffsets     : Nat
+  windowPosn     : Nat
+  framePosn      : Nat
+  frame          : Nat
+  resetInterval  : Nat
+  r0             : Nat
+  r1             : Nat
+  r2             : Nat
+  blockLength    : Nat
+  blockRemaining : Nat
+  intelFilesize  : Int          -- `signed int`
+  intelStarted   : Bool
+  blockType      : Nat
+  headerRead     : Bool
+  inputEnd       : Bool
+  isDelta        : Bool
+  error          : Err
+  inbufSize      : Nat
+  inbuf          : Bytes        -- the bytes between `i_ptr` and `i_end`
+  bits           : List Bool    -- `bit_buffer`/`bits_left`, next bit first
+  /-- `o_ptr`/`o_end` point into `e8_buf` (true) or into `window` (false); indices below -/
+  oInE8          : Bool
+  oPtr           : Nat
+  oEnd           : Nat
+  pretreeLen     : Array UInt8  -- dimension 20 + 64
+  maintreeLen    : Array UInt8  -- dimension 2576 + 64
+  lengthLen      : Array UInt8  -- dimension 250 + 64
+  alignedLen     : Array UInt8  -- dimension 8 + 64
+  /-- `*_table`: what the last successful `make_decode_table` call built (`none`: never built, or
+      the last build failed and left garbage) -/
+  maintreeTbl    : Option Huff.Canon
+  lengthTbl      : Option Huff.Canon
+  alignedTbl     : Option Huff.Canon
+  lengthEmpty    : Bool
+  e8Buf          : Array UInt8  -- dimension 32768
+
+/-- state survives a `throw` (the C returns an error code with the stream state as it is) -/
+abbrev LM (σ : Type) := ExceptT Halt (StateM (St σ))
+
+/-- value of a C `unsigned int` expression converted to `int` (also: of an `int` expression that
+    overflowed, on the two's-complement targets the library is built for) -/
+def toS32 (x : Int) : Int :=
+  let m := x % 4294967296
+  if m < 2147483648 then m else m - 4294967296
+
+/-- value of an integer expression converted to `unsigned int` -/
+def toU32 (x : Int) : Nat := (x % 4294967296).toNat
+
+def positionBaseArr : Array Nat := lzxPositionBase.toArray
+def extraBitsArr : Array Nat := lzxExtraBits.toArray
+
+/-- the 16 bits of `(b1 << 8) | b0`, most significant first -/
+def wordBits (b0 b1 : UInt8) : List Bool :=
+  let w := b1.toNat * 256 + b0.toNat
+  (List.range 16).map fun i => w.testBit (15 - i)
+
+/-- `PEEK_BITS`: value of a bit string, first bit most significant -/
+def bitsVal (bs : List Bool) : Nat := bs.foldl (fun acc b => acc * 2 + (if b then 1 else 0)) 0
+
+/-- `lzxd_reset_state` -/
+def resetState {σ : Type} (st : St σ) : St σ :=
+  let zero (n : Nat) (a : Array UInt8) : Array UInt8 :=
+    (List.range n).foldl (fun a i => a.setIfInBounds i 0) a
+  { st with r0 := 1, r1 := 1, r2 := 1, headerRead := false, blockRemaining := 0, blockType := 0,
+            maintreeLen := zero lzxMAINTREE_MAXSYMBOLS st.maintreeLen,
+            lengthLen := zero lzxLENGTH_MAXSYMBOLS st.lengthLen }
+
+/-- copy `n` bytes inside one array, front to back, one byte at a time (so overlapping copies
+    repeat, as the C's `while (i-- > 0) *rundest++ = *runsrc++`) -/
+def copyFwd : Nat → Nat → Nat → Array UInt8 → Except Fault (Array UInt8)
+  | 0, _, _, w => .ok w
+  | n + 1, src, dst, w =>
+    if hs : src < w.size then
+      if hd : dst < w.size then copyFwd n (src + 1) (dst + 1) (w.set dst w[src])
+      else .error (.oob "window (match destination)")
+    else .error (.oob "window (match source)")
+
+/-- store a byte string at `dst` -/
+def writeBytes : Bytes → Nat → Array UInt8 → Except Fault (Array UInt8)
+  | [], _, w => .ok w
+  | b :: rest, dst, w =>
+    if hd : dst < w.size then writeBytes rest (dst + 1) (w.set dst b)
+    else .error (.oob "window (raw copy)")
+
+/-- `sys->copy(&src[from], &dst[0], n)` between two arrays -/
+def copyAcross (src : Array UInt8) (start : Nat) : Nat → Nat → Array UInt8 → Except Fault (Array UInt8)
+  | 0, _, dst => .ok dst
+  | n + 1, k, dst =>
+    match src[start + k]? with
+    | none => .error (.oob "window (E8 copy)")
+    | some b =>
+      if hd : k < dst.size then copyAcross src start n (k + 1) (dst.set k b)
+      else .error (.oob "e8_buf")
+
+/-- the E8 call-translation loop over `e8_buf[0 .. dataend)`; `p` = `data - e8_buf` -/
+def e8Loop (dataend : Nat) (filesize : Int) : Nat → Nat → Int → Array UInt8 → Except Fault (Array UInt8)
+  | 0, p, _, buf => if p < dataend then .error .hang else .ok buf
+  | fuel + 1, p, curpos, buf =>
+    if p < dataend then
+      match buf[p]? with
+      | none => .error (.oob "e8_buf")
+      | some b =>
+        if b ≠ 0xE8 then e8Loop dataend filesize fuel (p + 1) (toS32 (curpos + 1)) buf
+        else
+          let p := p + 1
+          if h : p + 3 < buf.size then
+            let absOff := toS32 (le32 buf[p] buf[p + 1] buf[p + 2] buf[p + 3])
+            let buf :=
+              if absOff ≥ toS32 (-curpos) ∧ absOff < filesize then
+                let relOff := toU32 (if absOff ≥ 0 then absOff - curpos else absOff + filesize)
+                (((buf.set p (UInt8.ofNat (relOff % 256))).set (p + 1) (UInt8.ofNat (relOff / 256 % 256))
+                    (by simp; omega)).set (p + 2) (UInt8.ofNat (relOff / 65536 % 256))
+                    (by simp; omega)).set (p + 3) (UInt8.ofNat (relOff / 16777216 % 256)) (by simp; omega)
+              else buf
+            e8Loop dataend filesize fuel (p + 4) (toS32 (curpos + 5)) buf
+          else .error (.oob "e8_buf")
+    else .ok buf
+
+section
+variable {σ : Type} (S : Src σ)
+
+/-- `return lzx->error = e` -/
+def fail {α : Type} (e : Err) : LM σ α := do
+  modify fun st => { st with error := e }
+  throw (.sys e)
+
+/-- `read_input`; whatever the source learnt about the output length during the call is in
+    `lzx->length` afterwards -/
+def readInput : LM σ Unit := do
+  let st ← get
+  match S.read st.src st.inbufSize with
+  | .error f => throw (.fault f)
+  | .ok (got, src) =>
+    let length := match S.lzxLength src with
+      | some n => if n > 0 then n else st.length
+      | none => st.length
+    let st := { st with src := src, length := length }
+    match got with
+    | none => set { st with error := .read }; throw (.sys .read)
+    | some [] =>
+      if st.inputEnd then set { st with error := .read }; throw (.sys .read)
+      else set { st with inbuf := [0, 0], inputEnd := true }
+    | some got => set { st with inbuf := got }
+
+/-- `READ_IF_NEEDED; *i_ptr++` -/
+def nextByte : LM σ UInt8 := do
+  if (← get).inbuf.isEmpty then readInput S
+  let st ← get
+  match st.inbuf with
+  | b :: rest => set { st with inbuf := rest }; pure b
+  | [] => throw (.fault (.oob "inbuf"))   -- unreachable: readInput leaves a non-empty buffer
+
+/-- `ENSURE_BITS(n)`, n ≤ 17: at most two words are needed -/
+def ensureBits (n : Nat) : Nat → LM σ Unit
+  | 0 => do if (← get).bits.length < n then throw (.fault .hang)
+  | fuel + 1 => do
+    if (← get).bits.length < n then
+      let b0 ← nextByte S
+      let b1 ← nextByte S
+      modify fun st => { st with bits := st.bits ++ wordBits b0 b1 }
+      ensureBits n fuel
+    else pure ()
+
+def removeBits (n : Nat) : LM σ Unit := modify fun st => { st with bits := st.bits.drop n }
+
+/-- `PEEK_BITS(n)` -/
+def peekBits (n : Nat) : LM σ Nat := do pure (bitsVal ((← get).bits.take n))
+
+/-- `READ_BITS(val, n)` -/
+def readBits (n : Nat) : LM σ Nat := do
+  ensureBits S n 3
+  let v ← peekBits n
+  removeBits n
+  pure v
+
+/-- `READ_HUFFSYM(tbl, var)`: 16 bits are ensured first, then the symbol's own length is removed -/
+def readHuffSym (tbl : Option Huff.Canon) (name : String) : LM σ Nat := do
+  ensureBits S 16 3
+  match tbl with
+  | none => throw (.fault (.uninit name))
+  | some c =>
+    match Huff.decode c (← get).bits with
+    | some (sym, len) => removeBits len; pure sym
+    | none => fail .decrunch      -- HUFF_ERROR
+
+/-- which length array `lzxd_read_lens` works on -/
+inductive Tree | main | length
+  deriving DecidableEq, Repr
+
+def getLen (t : Tree) (x : Nat) : LM σ Nat := do
+  let st ← get
+  let a := match t with | .main => st.maintreeLen | .length => st.lengthLen
+  match a[x]? with
+  | some v => pure v.toNat
+  | none => throw (.fault (.oob "lens"))
+
+def setLen (t : Tree) (x : Nat) (v : UInt8) : LM σ Unit := do
+  let st ← get
+  match t with
+  | .main =>
+    if h : x < st.maintreeLen.size then set { st with maintreeLen := st.maintreeLen.set x v }
+    else throw (.fault (.oob "MAINTREE_len"))
+  | .length =>
+    if h : x < st.lengthLen.size then set { st with lengthLen := st.lengthLen.set x v }
+    else throw (.fault (.oob "LENGTH_len"))
+
+/-- `while (y--) lens[x++] = v` -/
+def fillLens (t : Tree) (v : UInt8) : Nat → Nat → LM σ Unit
+  | 0, _ => pure ()
+  | y + 1, x => do setLen t x v; fillLens t v y (x + 1)
+
+/-- `z = lens[x] - z; if (z < 0) z += 17;` then stored into an `unsigned char` -/
+def deltaLen (old sym : Nat) : UInt8 :=
+  let z : Int := (old : Int) - sym
+  let z := if z < 0 then z + 17 else z
+  UInt8.ofNat (z % 256).toNat
+
+/-- the symbol loop of `lzxd_read_lens`; runs may overrun `last` (the arrays have 64 spare
+    entries, and the overrun is written into them) -/
+def readLensLoop (t : Tree) (pre : Huff.Canon) (last : Nat) : Nat → Nat → LM σ Unit
+  | 0, _ => throw (.fault .hang)
+  | fuel + 1, x => do
+    if x < last then
+      let z ← readHuffSym S (some pre) "PRETREE_table"
+      if z = 17 then
+        let y := (← readBits S 4) + 4
+        fillLens t 0 y x
+        readLensLoop t pre last fuel (x + y)
+      else if z = 18 then
+        let y := (← readBits S 5) + 20
+        fillLens t 0 y x
+        readLensLoop t pre last fuel (x + y)
+      else if z = 19 then
+        let y := (← readBits S 1) + 4
+        let z ← readHuffSym S (some pre) "PRETREE_table"
+        let v := deltaLen (← getLen t x) z
+        fillLens t v y x
+        readLensLoop t pre last fuel (x + y)
+      else
+        let v := deltaLen (← getLen t x) z
+        setLen t x v
+        readLensLoop t pre last fuel (x + 1)
+    else pure ()
+
+/-- the 20 four-bit pretree lengths -/
+def readPretreeLens : Nat → Nat → LM σ Unit
+  | 0, _ => pure ()
+  | k + 1, x => do
+    let y ← readBits S 4
+    let st ← get
+    if h : x < st.pretreeLen.size then set { st with pretreeLen := st.pretreeLen.set x (UInt8.ofNat y) }
+    else throw (.fault (.oob "PRETREE_len"))
+    readPretreeLens k (x + 1)
+
+def lensOf (a : Array UInt8) (n : Nat) : List Nat := ((a.extract 0 n).toList).map (·.toNat)
+
+/-- `READ_LENGTHS(tbl, first, last)` = `lzxd_read_lens` -/
+def readLengths (fuel : Nat) (t : Tree) (first last : Nat) : LM σ Unit := do
+  readPretreeLens S lzxPRETREE_MAXSYMBOLS 0
+  match Huff.build lzxPRETREE_TABLEBITS (lensOf (← get).pretreeLen lzxPRETREE_MAXSYMBOLS) with
+  | none => fail .decrunch
+  | some pre => readLensLoop S t pre last fuel first
+
+/-- the eight three-bit aligned-offset lengths -/
+def readAlignedLens : Nat → Nat → LM σ Unit
+  | 0, _ => pure ()
+  | k + 1, x => do
+    let y ← readBits S 3
+    let st ← get
+    if h : x < st.alignedLen.size then set { st with alignedLen := st.alignedLen.set x (UInt8.ofNat y) }
+    else throw (.fault (.oob "ALIGNED_len"))
+    readAlignedLens k (x + 1)
+
+/-- twelve raw bytes of an uncompressed block's header -/
+def readRaw : Nat → Bytes → LM σ Bytes
+  | 0, acc => pure acc
+  | k + 1, acc => do let b ← nextByte S; readRaw k (acc ++ [b])
+
+/-- "initialise new block": everything under `if (lzx->block_remaining == 0)` -/
+def readBlockHeader (fuel : Nat) : LM σ Unit := do
+  -- realign if previous block was an odd-sized UNCOMPRESSED block
+  let st ← get
+  if st.blockType = 3 ∧ st.blockLength % 2 = 1 then
+    let _ ← nextByte S
+  let bt ← readBits S 3
+  modify fun st => { st with blockType := bt }
+  let i ← readBits S 16
+  let j ← readBits S 8
+  let len := i * 256 + j            -- (i << 8) | j, j < 256
+  modify fun st => { st with blockRemaining := len, blockLength := len }
+  if bt = 1 ∨ bt = 2 then
+    if bt = 2 then
+      readAlignedLens S lzxALIGNED_MAXSYMBOLS 0
+      match Huff.build lzxALIGNED_TABLEBITS (lensOf (← get).alignedLen lzxALIGNED_MAXSYMBOLS) with
+      | none => modify (fun st => { st with alignedTbl := none }); fail .decrunch
+      | some c => modify fun st => { st with alignedTbl := some c }
+    readLengths S fuel .main 0 256
+    readLengths S fuel .main 256 (lzxNUM_CHARS + (← get).numOffsets)
+    match Huff.build lzxMAINTREE_TABLEBITS (lensOf (← get).maintreeLen lzxMAINTREE_MAXSYMBOLS) with
+    | none => modify (fun st => { st with maintreeTbl := none }); fail .decrunch
+    | some c => modify fun st => { st with maintreeTbl := some c }
+    -- if the literal 0xE8 is anywhere in the block...
+    if (← getLen .main 0xE8) ≠ 0 then modify fun st => { st with intelStarted := true }
+    readLengths S fuel .length 0 lzxNUM_SECONDARY_LENGTHS
+    -- BUILD_TABLE_MAYBE_EMPTY(LENGTH)
+    modify fun st => { st with lengthEmpty := false }
+    let ll := lensOf (← get).lengthLen lzxLENGTH_MAXSYMBOLS
+    match Huff.build lzxLENGTH_TABLEBITS ll with
+    | some c => modify fun st => { st with lengthTbl := some c }
+    | none =>
+      modify fun st => { st with lengthTbl := none }
+      if ll.any (· > 0) then fail .decrunch
+      modify fun st => { st with lengthEmpty := true }
+  else if bt = 3 then
+    modify fun st => { st with intelStarted := true }
+    -- read 1-16 (not 0-15) bits to align to bytes
+    if (← get).bits.isEmpty then ensureBits S 16 3
+    modify fun st => { st with bits := [] }
+    let buf ← readRaw S 12 []
+    match buf with
+    | [a0, a1, a2, a3, b0, b1, b2, b3, c0, c1, c2, c3] =>
+      modify fun st => { st with r0 := le32 a0 a1 a2 a3, r1 := le32 b0 b1 b2 b3, r2 := le32 c0 c1 c2 c3 }
+    | _ => throw (.fault (.oob "buf"))   -- unreachable: readRaw 12 yields 12 bytes
+  else fail .decrunch
+
+/-- window-to-window copy on the state -/
+def winCopy (n src dst : Nat) : LM σ Unit := do
+  -- (`modifyGet` with the window taken out of the record first: the array is then not shared and
+  --  `copyFwd` updates it in place)
+  let r ← modifyGet fun (st : St σ) =>
+    let w := st.window
+    let st := { st with window := #[] }
+    match copyFwd n src dst w with
+    | .ok w => (none, { st with window := w })
+    | .error f => (some f, st)
+  match r with
+  | none => pure ()
+  | some f => throw (.fault f)
+
+/-- `window[window_posn++] = b` -/
+def putLiteral (b : UInt8) : LM σ Unit := do
+  let ok ← modifyGet fun (st : St σ) =>
+    if h : st.windowPosn < st.window.size then
+      (true, { st with window := st.window.set st.windowPosn b, windowPosn := st.windowPosn + 1 })
+    else (false, st)
+  if !ok then throw (.fault (.oob "window (literal)"))
+
+/-- what stays fixed while one run of a verbatim / aligned block is decoded -/
+structure RunCtx where
+  main        : Option Huff.Canon
+  len         : Option Huff.Canon
+  aligned     : Option Huff.Canon
+  isAligned   : Bool
+  isDelta     : Bool
+  lengthEmpty : Bool
+  windowSize  : Nat
+  refDataSize : Nat
+  offset      : Nat
+
+/-- match offset for position slots ≥ 3 (`default:` of the switch), with the R0..R2 update -/
+def readOffset (c : RunCtx) (slot : Nat) : LM σ Nat := do
+  let extra ←
+    if slot ≥ 36 then pure 17
+    else match extraBitsArr[slot]? with
+      | some e => pure e
+      | none => throw (.fault (.oob "extra_bits"))
+  let base ← match positionBaseArr[slot]? with
+    | some b => pure b
+    | none => throw (.fault (.oob "position_base"))
+  let mo := toU32 ((base : Int) - 2)
+  let mo ←
+    if extra ≥ 3 ∧ c.isAligned then do
+      let mo ← if extra > 3 then do
+          let vb ← readBits S (extra - 3)
+          pure ((mo + vb * 8) % 4294967296)
+        else pure mo
+      let ab ← readHuffSym S c.aligned "ALIGNED_table"
+      pure ((mo + ab) % 4294967296)
+    else if extra ≠ 0 then do
+      let vb ← readBits S extra
+      pure ((mo + vb) % 4294967296)
+    else pure mo
+  modify fun st => { st with r2 := st.r1, r1 := st.r0, r0 := mo }
+  pure mo
+
+/-- LZX DELTA: the extra length that follows a match of length 257 -/
+def readExtraLen : LM σ Nat := do
+  ensureBits S 3 3
+  if (← peekBits 1) = 0 then
+    removeBits 1; readBits S 8
+  else if (← peekBits 2) = 2 then
+    removeBits 2; pure ((← readBits S 10) + 0x100)
+  else if (← peekBits 3) = 6 then
+    removeBits 3; pure ((← readBits S 12) + 0x500)
+  else
+    removeBits 3; readBits S 15
+
+/-- "copy match": the checks and the (up to) two copy runs -/
+def copyMatch (c : RunCtx) (matchOffset matchLength : Nat) : LM σ Unit := do
+  let wp := (← get).windowPosn
+  if wp + matchLength > c.windowSize then fail .decrunch      -- match ran over window wrap
+  if matchOffset > wp then
+    -- does match offset wrap the window?
+    if matchOffset > c.offset ∧ matchOffset - wp > c.refDataSize then fail .decrunch
+    let j := toS32 ((matchOffset : Int) - wp)
+    if j > toS32 c.windowSize then fail .decrunch
+    -- j < 0 (offset - posn ≥ 2^31, needs ≥ 2 GiB of output): the C indexes far outside the window
+    if j < 0 then throw (.fault (.oob "window (match source)"))
+    let j := j.toNat
+    let src := c.windowSize - j
+    if j < matchLength then
+      winCopy j src wp
+      winCopy (matchLength - j) 0 (wp + j)
+    else winCopy matchLength src wp
+  else winCopy matchLength (wp - matchOffset) wp
+  modify fun st => { st with windowPosn := st.windowPosn + matchLength }
+
+/-- `while (this_run > 0)` of a verbatim / aligned block; result: the final `this_run` (≤ 0) -/
+def decodeRun (c : RunCtx) : Nat → Int → LM σ Int
+  | 0, _ => throw (.fault .hang)
+  | fuel + 1, thisRun => do
+    if thisRun ≤ 0 then pure thisRun else
+    let me ← readHuffSym S c.main "MAINTREE_table"
+    if me < lzxNUM_CHARS then
+      putLiteral (UInt8.ofNat me)
+      decodeRun c fuel (thisRun - 1)
+    else
+      let me := me - lzxNUM_CHARS
+      -- get match length
+      let ml := me % 8
+      let ml ←
+        if ml = lzxNUM_PRIMARY_LENGTHS then do
+          if c.lengthEmpty then fail .decrunch
+          let footer ← readHuffSym S c.len "LENGTH_table"
+          pure (ml + footer)
+        else pure ml
+      let ml := ml + lzxMIN_MATCH
+      -- get match offset
+      let slot := me / 8
+      let mo ←
+        if slot = 0 then do pure (← get).r0
+        else if slot = 1 then do
+          let st ← get
+          set { st with r1 := st.r0, r0 := st.r1 }
+          pure st.r1
+        else if slot = 2 then do
+          let st ← get
+          set { st with r2 := st.r0, r0 := st.r2 }
+          pure st.r2
+        else readOffset S c slot
+      -- LZX DELTA uses max match length to signal even longer match
+      let ml ← if ml = lzxMAX_MATCH ∧ c.isDelta then do pure (ml + (← readExtraLen S)) else pure ml
+      copyMatch c mo ml
+      decodeRun c fuel (thisRun - ml)
+
+/-- payload of an uncompressed block: straight from the input buffer, refilled when empty -/
+def copyRaw : Nat → Nat → Nat → LM σ Unit
+  | 0, _, _ => throw (.fault .hang)
+  | fuel + 1, dest, thisRun => do
+    if thisRun = 0 then pure () else
+    if (← get).inbuf.isEmpty then
+      readInput S
+      copyRaw fuel dest thisRun
+    else
+      let r ← modifyGet fun (st : St σ) =>
+        let n := min st.inbuf.length thisRun
+        let chunk := st.inbuf.take n
+        let w := st.window
+        let st := { st with window := #[], inbuf := st.inbuf.drop n }
+        match writeBytes chunk dest w with
+        | .error f => (Except.error f, st)
+        | .ok w => (Except.ok n, { st with window := w })
+      match r with
+      | .error f => throw (.fault f)
+      | .ok n => copyRaw fuel (dest + n) (thisRun - n)
+
+/-- `while (bytes_todo > 0)` -/
+def blockLoop : Nat → Int → LM σ Unit
+  | 0, _ => throw (.fault .hang)
+  | fuel + 1, bytesTodo => do
+    if bytesTodo ≤ 0 then pure () else
+    if (← get).blockRemaining = 0 then readBlockHeader S fuel
+    let st ← get
+    -- run = min(what's available, what's needed)
+    let thisRun : Int := if (st.blockRemaining : Int) > bytesTodo then bytesTodo else st.blockRemaining
+    let bytesTodo := bytesTodo - thisRun
+    let bt := st.blockType
+    let c : RunCtx := { main := st.maintreeTbl, len := st.lengthTbl, aligned := st.alignedTbl,
+                        isAligned := bt = 2, isDelta := st.isDelta, lengthEmpty := st.lengthEmpty,
+                        windowSize := st.windowSize, refDataSize := st.refDataSize, offset := st.offset }
+    let wp := st.windowPosn
+    set { st with blockRemaining := st.blockRemaining - thisRun.toNat }
+    let left : Int ←
+      if bt = 1 ∨ bt = 2 then decodeRun S c fuel thisRun
+      else if bt = 3 then do
+        modify fun st => { st with windowPosn := st.windowPosn + thisRun.toNat }
+        copyRaw S fuel wp thisRun.toNat
+        pure 0
+      else fail .decrunch
+    -- did the final match overrun our desired this_run length?
+    if left < 0 then
+      let over := (-left).toNat
+      if over > (← get).blockRemaining then fail .decrunch
+      modify fun st => { st with blockRemaining := st.blockRemaining - over }
+    blockLoop fuel bytesTodo
+
+/-- `&o_ptr[0 .. n)` -/
+def outSlice (st : St σ) (n : Nat) : Except Fault (Array UInt8) :=
+  let a := if st.oInE8 then st.e8Buf else st.window
+  if st.oPtr + n ≤ a.size then .ok (a.extract st.oPtr (st.oPtr + n))
+  else .error (.oob (if st.oInE8 then "e8_buf (write)" else "window (write)"))
+
+/-- one iteration of `while (lzx->frame < end_frame)`; result: the bytes handed to `write` -/
+def frameBody (fuel outBytes : Nat) : LM σ (Array UInt8) := do
+  -- have we reached the reset interval? (if there is one?)
+  let st ← get
+  if st.resetInterval ≠ 0 ∧ st.frame % st.resetInterval = 0 then
+    modify resetState
+  -- LZX DELTA format has chunk_size, not present in LZX format
+  if (← get).isDelta then
+    ensureBits S 16 3
+    removeBits 16
+  -- read header if necessary
+  if !(← get).headerRead then
+    let i ← readBits S 1
+    let (i, j) ← if i ≠ 0 then do
+        let i ← readBits S 16
+        let j ← readBits S 16
+        pure (i, j)
+      else pure (i, 0)
+    modify fun st => { st with intelFilesize := toS32 ((i * 65536 ||| j : Nat) : Int), headerRead := true }
+  -- calculate size of frame; if nothing of this frame has been read yet, read now (the CAB feeder
+  -- sets `lzx->length` from inside the read that fetches the folder's last block)
+  let st ← get
+  if st.length = 0 ∧ st.bits.isEmpty then
+    if st.inbuf.isEmpty then readInput S        -- READ_IF_NEEDED
+  let st ← get
+  let frameSize : Nat :=
+    if st.length ≠ 0 ∧ (st.length : Int) - st.offset < (lzxFRAME_SIZE : Int)
+    then toU32 ((st.length : Int) - st.offset) else lzxFRAME_SIZE
+  -- decode until one more frame is available
+  let bytesTodo := toS32 ((st.framePosn : Int) + frameSize - st.windowPosn)
+  blockLoop S fuel bytesTodo
+  -- streams don't extend over frame boundaries
+  let st ← get
+  if toU32 ((st.windowPosn : Int) - st.framePosn) ≠ frameSize then fail .decrunch
+  -- re-align input bitstream
+  if (← get).bits.length > 0 then ensureBits S 16 3
+  let bl := (← get).bits.length
+  if bl % 16 ≠ 0 then removeBits (bl % 16)
+  -- check that we've used all of the previous frame first
+  let st ← get
+  if st.oPtr ≠ st.oEnd then fail .decrunch
+  -- does this intel block _really_ need decoding?
+  if st.intelStarted ∧ st.intelFilesize ≠ 0 ∧ st.frame < 32768 ∧ frameSize > 10 then
+    match copyAcross st.window st.framePosn frameSize 0 st.e8Buf with
+    | .error f => throw (.fault f)
+    | .ok buf =>
+      match e8Loop (frameSize - 10) st.intelFilesize frameSize 0 (toS32 st.offset) buf with
+      | .error f => throw (.fault f)
+      | .ok buf => set { st with e8Buf := buf, oInE8 := true, oPtr := 0, oEnd := frameSize }
+  else
+    set { st with oInE8 := false, oPtr := st.framePosn, oEnd := st.framePosn + frameSize }
+  -- write a frame
+  let i := if outBytes < frameSize then outBytes else frameSize
+  let st ← get
+  match outSlice st i with
+  | .error f => throw (.fault f)
+  | .ok chunk =>
+    let framePosn := (st.framePosn + frameSize) % 4294967296
+    set { st with oPtr := st.oPtr + i, offset := st.offset + i,
+                  -- advance frame start position
+                  framePosn := if framePosn = st.windowSize then 0 else framePosn,
+                  frame := (st.frame + 1) % 4294967296,
+                  -- wrap window / frame position pointers
+                  windowPosn := if st.windowPosn = st.windowSize then 0 else st.windowPosn }
+    pure chunk
+
+/-- `while (lzx->frame < end_frame)` and what follows it; `n` counts the iterations left
+    (`end_frame - lzx->frame`, the frame counter goes up by one each time) -/
+def frameLoop (fuel endFrame : Nat) : Nat → St σ → Nat → Array UInt8 → Except Fault (DecodeOut (St σ))
+  | 0, st, outBytes, acc =>
+    if st.frame < endFrame then .error .hang
+    else if outBytes ≠ 0 then .ok ⟨.decrunch, acc.toList, { st with error := .decrunch }⟩
+    else .ok ⟨.ok, acc.toList, st⟩
+  | n + 1, st, outBytes, acc =>
+    if st.frame < endFrame then
+      match (frameBody S fuel outBytes).run.run st with
+      | (.error (.fault f), _) => .error f
+      | (.error (.sys e), st) => .ok ⟨e, acc.toList, st⟩
+      | (.ok chunk, st) => frameLoop fuel endFrame n st (outBytes - chunk.size) (acc ++ chunk)
+    else if outBytes ≠ 0 then .ok ⟨.decrunch, acc.toList, { st with error := .decrunch }⟩
+    else .ok ⟨.ok, acc.toList, st⟩
+
+end
 
 /-- `lzxd_init(system, input, output, window_bits, reset_interval, input_buffer_size,
     output_length, is_delta)`; `none` = NULL.  `fill` = contents of fresh allocations. -/
 def init {σ : Type} (src : σ) (windowBits resetInterval inputBufferSize outputLength : Nat)
     (isDelta : Bool) (fill : UInt8) : Option (St σ) :=
-  some { src := src }
+  let okBits := if isDelta then 17 ≤ windowBits ∧ windowBits ≤ 25 else 15 ≤ windowBits ∧ windowBits ≤ 21
+  if !decide okBits then none else
+  -- round up input buffer size to multiple of two
+  let inbufSize := (inputBufferSize + 1) / 2 * 2
+  if inbufSize < 2 then none else
+  match lzxPositionSlots[windowBits - 15]? with
+  | none => none            -- unreachable: 0 ≤ windowBits - 15 ≤ 10
+  | some slots =>
+    let lens (cleared dim : Nat) : Array UInt8 :=
+      Array.replicate cleared 0 ++ Array.replicate (dim - cleared) fill
+    some {
+      src := src, offset := 0, length := outputLength,
+      window := Array.replicate (2 ^ windowBits) fill, windowSize := 2 ^ windowBits,
+      refDataSize := 0, numOffsets := slots * 8, windowPosn := 0, framePosn := 0, frame := 0,
+      resetInterval := resetInterval, r0 := 1, r1 := 1, r2 := 1,
+      blockLength := fill.toNat * 16843009,       -- never written by lzxd_init
+      blockRemaining := 0, intelFilesize := 0, intelStarted := false, blockType := 0,
+      headerRead := false, inputEnd := false, isDelta := isDelta, error := .ok,
+      inbufSize := inbufSize, inbuf := [], bits := [],
+      oInE8 := true, oPtr := 0, oEnd := 0,
+      pretreeLen := lens 0 lzxPretreeLenDim,
+      maintreeLen := lens lzxMAINTREE_MAXSYMBOLS lzxMaintreeLenDim,
+      lengthLen := lens lzxLENGTH_MAXSYMBOLS lzxLengthLenDim,
+      alignedLen := lens 0 lzxAlignedLenDim,
+      maintreeTbl := none, lengthTbl := none, alignedTbl := none,
+      lengthEmpty := fill ≠ 0,                    -- never written by lzxd_init
+      e8Buf := Array.replicate lzxE8BufDim fill }
 
 /-- `lzxd_set_output_length` -/
-def setOutputLength {σ : Type} (st : St σ) (n : Nat) : St σ := st
+def setOutputLength {σ : Type} (st : St σ) (n : Nat) : St σ :=
+  if n > 0 then { st with length := n } else st
 
 /-- `lzxd_set_reference_data(lzx, system, input, length)`: `ref` = the bytes the base file handle
-    would deliver (`none` = the read fails or is short) -/
-def setReferenceData {σ : Type} (st : St σ) (length : Nat) (ref : Option Bytes) : Err × St σ := (.ok, st)
+    delivers to a read of `length` bytes (`none` = the read returns a negative value; fewer than
+    `length` bytes = short read: they are in the window, the call fails) -/
+def setReferenceData {σ : Type} (st : St σ) (length : Nat) (ref : Option Bytes) : Err × St σ :=
+  if !st.isDelta then (.args, st)
+  else if st.offset ≠ 0 then (.args, st)
+  else if length > st.windowSize then (.args, st)
+  else
+    let st := { st with refDataSize := length }
+    if length = 0 then (.ok, st) else
+    match ref with
+    | none => (.read, st)
+    | some bytes =>
+      let bytes := bytes.take length
+      let w := st.window
+      let st := { st with window := #[] }
+      match writeBytes bytes (st.windowSize - length) w with
+      | .error _ => (.read, st)      -- unreachable: length ≤ window_size = window.size
+      | .ok w =>
+        let st := { st with window := w }
+        if bytes.length < length then (.read, st) else (.ok, st)
 
 /-- `lzxd_decompress(lzx, out_bytes)` -/
 def decompress {σ : Type} (S : Src σ) (fuel : Nat) (st : St σ) (outBytes : Nat) :
     Except Fault (DecodeOut (St σ)) :=
-  .ok ⟨.ok, [], st⟩
+  if st.error ≠ .ok then .ok ⟨st.error, [], st⟩ else
+  -- flush out any stored-up bytes before we begin
+  let i := min (st.oEnd - st.oPtr) outBytes
+  match outSlice st i with
+  | .error f => .error f
+  | .ok chunk =>
+    let st := { st with oPtr := st.oPtr + i, offset := st.offset + i }
+    let outBytes := outBytes - i
+    if outBytes = 0 then .ok ⟨.ok, chunk.toList, st⟩ else
+    let endFrame := ((st.offset + outBytes) / lzxFRAME_SIZE % 4294967296 + 1) % 4294967296
+    frameLoop S fuel endFrame (endFrame - st.frame) st outBytes chunk
 
 end MsPack.Lzx
